@@ -473,7 +473,7 @@ def run(ctx):
             what = {0: 'unknown to the reference table', 1: 'declared dimension above the reference', 2: 'declared IRF order below the reference',
                     3: 'compact support larger than the range', 4: 'getScadef differs from the reference', 5: 'closed form text / shape / space flags differ from the reference',
                     6: 'parameter range larger than the reference'}[f]
-            if f == 1 and ctx.psd_found.get(code): continue        # reported with a concrete point set by the search
+            if f in (1, 2, 5) and ctx.psd_found.get(code): continue   # reported with a concrete point set by the search
             if f == 3 and ctx.support_found.get(code): continue
             viol('table:%s:%s' % (short(e), {0: 'unknown', 1: 'dimension', 2: 'order', 3: 'support', 4: 'scadef', 5: 'form', 6: 'parameter'}[f]),
                  "structure '%s': %s (declared max dimension %s, reference %s) and no failing input was found by the search" % (e['name'], what, decl or 'any', ref),
@@ -497,7 +497,7 @@ def run(ctx):
         'polynomial closed forms are evaluated by the model at a 2^-100 bracket of the square root of the squared normalised distance (exact on perfect squares); '
         'the values at both ends of the bracket are returned (their Lipschitz closeness is not proved)',
         'the cut-offs h > MAX_EXP / h > 100 of Exponential, Gaussian, Cosexp are not mirrored (difference < 4e-44)',
-        'J-Bessel, Spline G.C., Spline-2 G.C., Markov and the sphere-only structures have no closed form in the model (no Bessel / log in the installed libraries): '
+        'J-Bessel, Spline G.C., Spline-2 G.C. have no closed form in the model; Markov and the sphere-only structures have no covariance on R^n and are not offered there (no Bessel / log in the installed libraries): '
         'only their validity-table entries, text hash and numerical PSD exploration are covered',
         'third parameter: Matern 1/2, 3/2, 5/2; Stable 1/2, 1, 3/2, 2; Cauchy/Gamma integer; Power 1 (constant term harvested from the implementation)',
         'scadef of Matern/Stable/Cauchy/Gamma is harvested from the implementation and checked against its formula in floating point only']
@@ -816,7 +816,7 @@ def psd_exploration(ctx, exe, entries, by_code, table_fail, guard_vacuous, viol,
                         rgd = dyadic_round(float(rg2 * sc), 16)
                         s = [code, dy(param), 1, [dy(rgd)] * ndim, [], [[dy(1)]]]
                         cases.append([1, ndim, 1, [s], [], [], [Pt(p) for p in pts], []]); meta.append((e, ndim, param, rgd, kind, pts, accepted))
-    # directed: the witness of theorem C03_penta_refuted (7 points with integer mutual distances, range 32), in R^2 and embedded in R^3
+    # directed regression: the witness of Example C03_old_penta_regression (7 points with integer mutual distances, range 32), in R^2 and embedded in R^3
     WPTS = [(25, 0), (7, 24), (-7, 24), (-25, 0), (-7, -24), (7, -24), (0, 0)]
     WX = [F(5), F(4), F(4), F(5), F(4), F(4), F(8)]
     pe = by_code.get(21)
@@ -835,17 +835,15 @@ def psd_exploration(ctx, exe, entries, by_code, table_fail, guard_vacuous, viol,
             Kq = [[undy(t) for t in r] for r in ii[4]]
             q = exact_quad(Kq, WX)
             ctx.count(sx_str(c), True); ctx.dist('penta_witness')
-            expect = F(-149093, 8192)
+            old_form = F(-149093, 8192)     # value for the pre-fix closed form (Example C03_old_penta_regression)
             if q < 0:
                 ctx.psd_found[21] = True
                 viol('Penta:not-psd-in-%dD' % c[1],
-                     "'Penta' is offered in R^%d (getMaxNDim = %s) but is not positive semi-definite: on the 7 points of theorem C03_penta_refuted (integer mutual distances, range 32) "
-                     "x = (5,4,4,5,4,4,8) gives x^T K x = %.9g on the implementation's matrix (exactly %s = %.9g in the Coq model); the closed form of CovPenta.cpp is the one of CovReg1D.cpp"
-                     % (c[1], pe['maxdim'], float(q), expect, float(expect)),
-                     {'case': sx_str(c), 'points': WPTS, 'x': [str(t) for t in WX], 'xKx_exact_on_doubles': str(q), 'xKx_model': str(expect), 'theorem': 'C03_penta_refuted (coq/C03/Properties.v)',
+                     "'Penta' is offered in R^%d (getMaxNDim = %s) but is not positive semi-definite: on the 7 regression points of C03_old_penta_regression (integer mutual distances, range 32) "
+                     "x = (5,4,4,5,4,4,8) gives x^T K x = %.9g on the implementation's matrix (the Reg1D closed form that CovPenta.cpp carried before fix C03_1 gives exactly %s = %.9g)"
+                     % (c[1], pe['maxdim'], float(q), old_form, float(old_form)),
+                     {'case': sx_str(c), 'points': WPTS, 'x': [str(t) for t in WX], 'xKx_exact_on_doubles': str(q), 'xKx_old_form': str(old_form), 'example': 'C03_old_penta_regression (coq/C03/Properties.v)',
                       'how': 'Model::addCovFromParam(ECov::PENTA, ranges = 32); K = model.evalCovMatrixSymmetric(db of the 7 points); x^T K x in exact rational arithmetic on the returned doubles'})
-            if abs(q - expect) > F(1, 10 ** 9):
-                viol('closed-form:Penta', 'the Penta matrix of the witness points gives x^T K x = %r on the implementation, %r in the model' % (float(q), float(expect)), {'case': sx_str(c)})
     cf = write_cases(ctx, 'psd', cases)
     _, im = run_impl(ctx, exe, cf, timeout=3000)
     nneg = 0
